@@ -104,3 +104,283 @@ class _(_Surgery):
         return mk_graph(lambda x: L.And(g.N(x), keep(x)),
                         lambda p, q: L.And(g.D(p, q), keep(p), keep(q)),
                         lambda p, q: L.And(g.U(p, q), keep(p), keep(q)))
+
+
+# ------------------------------------------------------------------------------------------------ closures
+def _closure(ex, E, name):
+    return ex.L.rtc(E, name)
+
+
+def _acyclic(ex, g):
+    from y0vc.libspec import acyclic
+    return acyclic(ex, lambda a, b: g.D(a, b))
+
+
+class _Reach(Contract):
+    """ancestors_inclusive / descendants_inclusive: reflexive-transitive closure over directed edges."""
+    params = {"self": "graph", "sources": NODES_ARG}
+    allowed_raises = ("TypeError", "NetworkXError")
+    forward = False
+
+    def adapt(self, ex, env):
+        a = super().adapt(ex, env)
+        a.S = as_nodes(ex, a.sources)
+        return a
+
+    def raises(self, ex, a):
+        L = ex.L
+        ok = no_interventions(ex, a.S)
+        return {"TypeError": L.Not(ok),
+                # nx.ancestors / nx.descendants raise on a source that is not a node
+                "NetworkXError": L.And(ok, L.exists(1, lambda s: L.And(a.S.has(s), L.Not(a.self.N(s)))))}
+
+    def spec(self, ex, a):
+        L, g, S = ex.L, a.self, a.S
+        C = _closure(ex, lambda p, q: g.D(p, q), "rtcD")
+        if self.forward:
+            return VSet(lambda u: L.exists(1, lambda s: L.And(S.has(s), C(s, u))))
+        return VSet(lambda u: L.exists(1, lambda s: L.And(S.has(s), C(u, s))))
+
+
+@contract(f"{G}.ancestors_inclusive", props=["C14", "C02", "C04"])
+class _(_Reach):
+    forward = False
+
+
+@contract(f"{G}.descendants_inclusive", props=["C14"])
+class _(_Reach):
+    forward = True
+
+
+@contract(f"{G}.topological_sort", props=["C14", "C02"])
+class _(Contract):
+    """A permutation of the nodes in which every directed edge points forward; NetworkXUnfeasible iff cyclic."""
+    params = {"self": "graph"}
+    allowed_raises = ("NetworkXUnfeasible",)
+
+    def raises(self, ex, a):
+        ac, _ = _acyclic(ex, a.self)
+        return {"NetworkXUnfeasible": ex.L.Not(ac)}
+
+    def post(self, ex, a, res):
+        L, g = ex.L, a.self
+        if isinstance(res, VSet) and getattr(res, "seq_view", None) is not None:
+            res = res.seq_view
+        if not isinstance(res, VSeq):
+            return {"type": L.F()}
+        return {"members": L.eq_set(res.mem, g.N),
+                "order": L.forall(2, lambda p, q: L.Implies(g.D(p, q), res.before(p, q))),
+                "total": L.forall(2, lambda p, q: L.Implies(L.And(res.mem(p), res.mem(q)), L.Or(p == q, res.before(p, q), res.before(q, p)))),
+                "strict": L.forall(2, lambda p, q: L.Not(L.And(res.before(p, q), res.before(q, p))))}
+
+    def result(self, ex, a):
+        L, g = ex.L, a.self
+        before = L.strict_total_order_on(lambda x: g.N(x), "topo")
+        ex.assume(L.forall(2, lambda p, q: L.Implies(g.D(p, q), before(p, q))))
+        return VSeq(lambda x: g.N(x), before)
+
+
+@contract(f"{G}.districts", props=["C14", "C02"])
+class _(Contract):
+    """The classes of the reflexive-transitive closure of the bidirected edge relation (a partition of the nodes)."""
+    params = {"self": "graph"}
+
+    def spec(self, ex, a):
+        L, g = ex.L, a.self
+        C = _closure(ex, lambda p, q: g.U(p, q), "rtcU")
+        return VFam(lambda r: g.N(r), lambda r, x: L.And(g.N(x), C(r, x)))
+
+
+@contract(f"{G}.get_district", props=["C14"])
+class _(Contract):
+    params = {"self": "graph", "node": "node"}
+    allowed_raises = ("KeyError",)
+
+    def raises(self, ex, a):
+        return {"KeyError": ex.L.Not(a.self.N(a.node.t))}
+
+    def spec(self, ex, a):
+        L, g = ex.L, a.self
+        C = _closure(ex, lambda p, q: g.U(p, q), "rtcU")
+        return VSet(lambda x: L.And(g.N(x), C(a.node.t, x)))
+
+
+@contract(f"{G}.is_connected", props=["C14", "C02"])
+class _(Contract):
+    params = {"self": "graph"}
+    allowed_raises = ("NetworkXPointlessConcept",)
+
+    def raises(self, ex, a):
+        return {"NetworkXPointlessConcept": ex.L.Not(ex.L.exists(1, lambda x: a.self.N(x)))}
+
+    def spec(self, ex, a):
+        L, g = ex.L, a.self
+        C = _closure(ex, lambda p, q: g.U(p, q), "rtcU")
+        return VBool(L.forall(2, lambda p, q: L.Implies(L.And(g.N(p), g.N(q)), C(p, q))))
+
+
+@contract(f"{G}.get_markov_pillow", props=["C14"])
+class _(Contract):
+    """Pa(S) minus S.  networkx raises on a member that is not a node."""
+    params = {"self": "graph", "nodes": "nodeset"}
+    allowed_raises = ("NetworkXError",)
+
+    def adapt(self, ex, env):
+        a = super().adapt(ex, env)
+        a.S = as_nodes(ex, a.nodes)
+        return a
+
+    def raises(self, ex, a):
+        L = ex.L
+        return {"NetworkXError": L.exists(1, lambda s: L.And(a.S.has(s), L.Not(a.self.N(s))))}
+
+    def spec(self, ex, a):
+        L, g, S = ex.L, a.self, a.S
+        return VSet(lambda p: L.And(L.Not(S.has(p)), L.exists(1, lambda n: L.And(S.has(n), g.D(p, n)))))
+
+
+@contract(f"{G}.get_markov_blanket", props=["C14"])
+class _(Contract):
+    """(Pa(S) | Ch(S) | Pa(Ch(S))) minus S."""
+    params = {"self": "graph", "nodes": NODES_ARG}
+    allowed_raises = ("NetworkXError",)
+
+    def adapt(self, ex, env):
+        a = super().adapt(ex, env)
+        a.S = as_nodes(ex, a.nodes)
+        return a
+
+    def raises(self, ex, a):
+        L = ex.L
+        return {"NetworkXError": L.exists(1, lambda s: L.And(a.S.has(s), L.Not(a.self.N(s))))}
+
+    def spec(self, ex, a):
+        L, g, S = ex.L, a.self, a.S
+        pa = lambda p: L.exists(1, lambda n: L.And(S.has(n), g.D(p, n)))
+        ch = lambda c: L.exists(1, lambda n: L.And(S.has(n), g.D(n, c)))
+        pach = lambda p: L.exists(2, lambda n, c: L.And(S.has(n), g.D(n, c), g.D(p, c)))
+        return VSet(lambda x: L.And(L.Not(S.has(x)), L.Or(pa(x), ch(x), pach(x))))
+
+
+@contract(f"{G}.moralize", props=["C14", "C04"])
+class _(Contract):
+    """Same nodes and directed edges; bidirected edges plus a link between every two distinct co-parents."""
+    params = {"self": "graph"}
+
+    def spec(self, ex, a):
+        L, g = ex.L, a.self
+        co = lambda p, q: L.And(p != q, L.exists(1, lambda n: L.And(g.D(p, n), g.D(q, n))))
+        return mk_graph(lambda x: g.N(x), lambda p, q: g.D(p, q), lambda p, q: L.Or(g.U(p, q), co(p, q)))
+
+
+@contract(f"{G}.disorient", props=["C14", "C04"])
+class _(Contract):
+    """The undirected graph on the same nodes with an edge wherever there is a directed (either way) or bidirected edge."""
+    params = {"self": "graph"}
+
+    def spec(self, ex, a):
+        L, g = ex.L, a.self
+        return VNx(False, lambda x: g.N(x), lambda p, q: L.Or(g.D(p, q), g.D(q, p), g.U(p, q)), owned=True)
+
+
+@contract(f"{G}.copy", props=["C14"])
+class _(Contract):
+    params = {"self": "graph"}
+
+    def spec(self, ex, a):
+        g = a.self
+        return mk_graph(lambda x: g.N(x), lambda p, q: g.D(p, q), lambda p, q: g.U(p, q))
+
+
+@contract(f"{G}.pre", props=["C14"])
+class _(Contract):
+    """The maximal prefix of the order that is disjoint from the node set (explicit order), in the same order."""
+    params = {"self": "graph", "nodes": NODES_ARG, "topological_sort_order": ("seq", "none")}
+    allowed_raises = ("TypeError", "NetworkXUnfeasible")
+
+    def adapt(self, ex, env):
+        a = super().adapt(ex, env)
+        a.S = as_nodes(ex, a.nodes)
+        a.explicit = isinstance(getattr(a, "topological_sort_order", None), VSeq)
+        return a
+
+    def raises(self, ex, a):
+        L = ex.L
+        out = {"TypeError": L.Not(no_interventions(ex, a.S))}
+        if a.explicit:
+            o = a.topological_sort_order
+            # an empty explicit order is replaced by the graph's own order, which raises on a cyclic graph
+            ac, _ = _acyclic(ex, a.self)
+            out["NetworkXUnfeasible"] = L.And(L.Not(L.exists(1, lambda x: o.mem(x))), L.Not(ac))
+        else:
+            ac, _ = _acyclic(ex, a.self)
+            out["NetworkXUnfeasible"] = L.Not(ac)
+        return out
+
+    def post(self, ex, a, res):
+        L, g, S = ex.L, a.self, a.S
+        if isinstance(res, VSet) and getattr(res, "seq_view", None) is not None:
+            res = res.seq_view
+        if not isinstance(res, VSeq):
+            return {"type": L.F()}
+        out = {"disjoint": L.forall(1, lambda x: L.Not(L.And(res.mem(x), S.has(x))))}
+        if a.explicit:
+            o = a.topological_sort_order
+            nonempty = L.exists(1, lambda x: o.mem(x))
+            blocked = lambda x: L.exists(1, lambda s: L.And(S.has(s), o.mem(s), L.Or(s == x, o.before(s, x))))
+            out["members"] = L.Implies(nonempty, L.forall(1, lambda x: res.mem(x) == L.And(o.mem(x), L.Not(blocked(x)))))
+            out["order"] = L.Implies(nonempty, L.forall(2, lambda p, q: L.Implies(L.And(res.mem(p), res.mem(q)),
+                                                                              res.before(p, q) == o.before(p, q))))
+        out["nodes"] = L.Implies(L.T() if not a.explicit else L.Not(L.exists(1, lambda x: a.topological_sort_order.mem(x))),
+                                 L.forall(1, lambda x: L.Implies(res.mem(x), g.N(x))))
+        out["ancestral"] = L.Implies(L.T() if not a.explicit else L.Not(L.exists(1, lambda x: a.topological_sort_order.mem(x))),
+                                     L.forall(2, lambda p, q: L.Implies(L.And(res.mem(q), g.D(p, q)), L.And(res.mem(p), res.before(p, q)))))
+        return out
+
+
+@contract("y0.graph.get_nodes_in_directed_paths", props=["C14"])
+class _(Contract):
+    """On an acyclic graph: the nodes on directed paths from a source to a different target."""
+    params = {"graph": "graph", "sources": NODES_ARG, "targets": NODES_ARG}
+    allowed_raises = ("TypeError",)
+
+    def adapt(self, ex, env):
+        a = super().adapt(ex, env)
+        a.S, a.T = as_nodes(ex, a.sources), as_nodes(ex, a.targets)
+        return a
+
+    def pre(self, ex, a):
+        ac, _ = _acyclic(ex, a.graph)
+        return [("acyclic", ac)]
+
+    def raises(self, ex, a):
+        L = ex.L
+        return {"TypeError": L.Or(L.Not(no_interventions(ex, a.S)), L.Not(no_interventions(ex, a.T)))}
+
+    def spec(self, ex, a):
+        L, g = ex.L, a.graph
+        C = _closure(ex, lambda p, q: g.D(p, q), "rtcD")
+        return VSet(lambda n: L.exists(2, lambda s, t: L.And(a.S.has(s), a.T.has(t), s != t, g.N(s), g.N(t), C(s, n), C(n, t))))
+
+
+@contract(f"{G}.get_intervened_ancestors", props=["C02"])
+class _(Contract):
+    """An(outcomes) in the graph with the edges into the interventions removed."""
+    params = {"self": "graph", "interventions": NODES_ARG, "outcomes": NODES_ARG}
+    allowed_raises = ("TypeError", "NetworkXError")
+
+    def adapt(self, ex, env):
+        a = super().adapt(ex, env)
+        a.X, a.Y = as_nodes(ex, a.interventions), as_nodes(ex, a.outcomes)
+        return a
+
+    def raises(self, ex, a):
+        L = ex.L
+        ok = L.And(no_interventions(ex, a.X), no_interventions(ex, a.Y))
+        return {"TypeError": L.Not(ok),
+                "NetworkXError": L.And(ok, L.exists(1, lambda s: L.And(a.Y.has(s), L.Not(a.self.N(s)))))}
+
+    def spec(self, ex, a):
+        L, g = ex.L, a.self
+        C = _closure(ex, lambda p, q: L.And(g.D(p, q), L.Not(a.X.has(q))), "rtcDx")
+        return VSet(lambda u: L.exists(1, lambda s: L.And(a.Y.has(s), C(u, s))))
